@@ -270,4 +270,60 @@ def complementCodes (amb : List Nat) (dict : List (Nat × Nat)) (codes : List Na
   | .error e => .error e
   | .ok m => mapperApply m codes
 
+/-! ## Less-used entry points -/
+
+section More
+variable {α : Type} [DecidableEq α]
+
+/-- `common_alphabet(alphabets)`: the alphabet that extends all others, if there is one. -/
+def commonAlphabet : List (List α) → Option (List α) → Option (Option (List α))
+  | [], cur => some cur
+  | a :: rest, none => commonAlphabet rest (some a)
+  | a :: rest, some c =>
+    if extends_ c a then commonAlphabet rest (some c)
+    else if extends_ a c then commonAlphabet rest (some a)
+    else none
+
+/-- `sequence.symbols = value`. -/
+def Seq.setSymbols (s : Seq α) (syms : List α) : Except Err (Seq α) :=
+  match encode s.alph syms with
+  | .ok cs => .ok { s with codes := cs }
+  | .error e => .error e
+
+/-- `get_symbol_frequency()`: occurrences of every alphabet symbol. -/
+def Seq.frequency (s : Seq α) : List Nat :=
+  (List.range s.alph.length).map fun i => s.codes.count i
+
+/-- `general_sequence.as_type(other)`: `other` receives the code if its alphabet extends this one. -/
+def Seq.asType (a b : Seq α) : Except Err (Seq α) :=
+  if extends_ b.alph a.alph then .ok { b with codes := a.codes } else .error .alphabetError
+
+end More
+
+/-- `NucleotideSequence(string, ambiguous=flag)` with an explicit flag. -/
+def nucNewFlag (unamb amb : List Nat) (flag : Bool) (s : List Nat) : Except Err (Seq Nat) :=
+  let al := if flag then amb else unamb
+  match encodeChars al (s.map upperByte) with
+  | .ok cs => .ok ⟨1, al, cs⟩
+  | .error e => .error e
+
+/-- `ProteinSequence(list of symbols)`: 3-letter codes are translated with `_dict_3to1` (unknown
+→ `AlphabetError`, repaired code), everything else is upper-cased and must be a single letter. -/
+def protNew3 (alph : List Nat) (d3to1 : List (List Nat × Nat)) (toks : List (List Nat)) : Except Err (Seq Nat) :=
+  let conv (t : List Nat) : Except Err (List Nat) :=
+    let u := t.map upperByte
+    if t.length = 3 then
+      match d3to1.lookup u with
+      | some b => .ok [b]
+      | none => .error .alphabetError
+    else .ok u
+  match mapE conv toks with
+  | .error e => .error e
+  | .ok syms =>
+    if syms.any (fun x => x.length ≠ 1) then .error .alphabetError
+    else
+      match encodeChars alph syms.flatten with
+      | .ok cs => .ok ⟨2, alph, cs⟩
+      | .error e => .error e
+
 end BiotiteModel.C03
